@@ -7,7 +7,7 @@ LEVEL = "model_checking"
 MANIFEST = {
     "engine": "tlc PackRequest scenarios + vhpack c07 + tlc PackRecord validation",
     "technique": "TLC enumerates encoder requests (object families x repeated ids x window x delta kind x source storage) and computes the Requested set; go-git's packfile.Encoder output is parsed by the harness' own pack reader into one record per pack and a TLA+ acceptance predicate (PackRecord over PackGraph: well-formed delta graph, ids(Resolve) = Requested, no duplicates, count, trailer) is evaluated by TLC on every record; git index-pack --strict / verify-pack -v judge a seeded sample",
-    "text": "Every request over the 17-object universe (chain of 5 similar blobs, near-equal trio, empty blob/tree, similar trees, commit, tag, two >64KiB blobs; family combinations sampled 1/48 in quick, 1/4 in thorough, by seed) x repeated ids {none, first, all} x window {0,1,10,50} x {ofs,ref} x source {memory, loose filesystem, git-packed filesystem with delta reuse}; SHA-1 on all, SHA-256 on a seeded quarter.",
+    "text": "Every request over the 17-object universe (chain of 5 similar blobs, near-equal trio, empty blob/tree, similar trees, commit, tag, two >64KiB blobs, and apart from the product a 17 MiB / 12 MiB pair whose shared run reaches beyond offset 16 MiB; family combinations sampled 1/48 in quick, 1/4 in thorough, by seed) x repeated ids {none, first, all} x window {0,1,10,50} x {ofs,ref} x source {memory, loose filesystem, git-packed filesystem with delta reuse}; SHA-1 on all, SHA-256 on a seeded quarter.",
     "note": "The structure of the pack is decided in TLA+; inflating, delta application and hashing in the harness reader are cross-checked against git verify-pack on the sampled packs (a disagreement is a tooling error). Compressed bytes are git's leg only. Thin packs are not produced by Encoder and are outside this check.",
 }
 
@@ -15,6 +15,8 @@ REQ_CFG = """CONSTANTS
  Windows = {0, 1, 10, 50}
  Kinds = {"ofs", "ref"}
  Sources = {"memory", "fs-loose", "fs-packed"}
+ HugeWindows = %s
+ HugeKinds = %s
  SelMod = %d
  SelSel = %d
  Emit = TRUE
@@ -49,7 +51,12 @@ CHECK_DEADLOCK FALSE
 def run(ctx):
     mod = 4 if ctx.thorough else 48
     sel = ctx.seed % mod
-    r = ctx.tlc("PackRequest", cfg_text=REQ_CFG % (mod, sel), timeout=1500)
+    # the huge similar pair (copy offsets >= 16 MiB): one representative in quick, the 2 x 2 matrix in thorough
+    if ctx.thorough:
+        hw, hk = "{0, 10}", '{"ofs", "ref"}'
+    else:
+        hw, hk = "{10}", '{"%s"}' % ("ofs" if ctx.seed % 2 else "ref")
+    r = ctx.tlc("PackRequest", cfg_text=REQ_CFG % (hw, hk, mod, sel), timeout=1500)
     rows = ctx.printed_json(r)
     if len(rows) != r.distinct or not rows:
         raise vlib.ToolingError("PackRequest: %d rows printed for %d states" % (len(rows), r.distinct))
@@ -85,7 +92,7 @@ def run(ctx):
                              "requested": rec["req"]})
     ctx.cov["traces_validated_against_impl"] = len(recs)
     ctx.cov["records_rejected_by_spec"] = total_bad
-    ctx.cov["bounds"] = {"universe_objects": 17, "family_selection": "1/%d (seeded)" % mod, "scenarios": len(rows),
+    ctx.cov["bounds"] = {"universe_objects": 19, "family_selection": "1/%d (seeded)" % mod, "scenarios": len(rows),
                          "windows": [0, 1, 10, 50], "kinds": ["ofs", "ref"], "sources": ["memory", "fs-loose", "fs-packed"]}
     ctx.cov["exhaustive"] = True
     ctx.cov["rule"] = ("one case = one TLC state of PackRequest (family combination x repetition x window x kind x source) x object format; "
